@@ -65,11 +65,18 @@ def findIdx : List FieldSpec → (FieldSpec → Bool) → Option Nat
   | [], _ => none
   | f :: fs, p => if p f then some 0 else (findIdx fs p).map (· + 1)
 
-/-- lib.rs:514-537 `__FieldVisitor`: `some i` = `__Field::<field i>`, `none` = `__Field::__ignore` -/
-def fieldOf {ε : Type} (schema : Schema) : Key → Except (Err ε) (Option Nat)
-  | .str s => .ok (findIdx schema (fun f => matchName f == s))
-  | .u16 n => .ok (findIdx schema (fun f => f.token == some n))
-  | .other => .error .invalidType
+/-- lib.rs:514-537 `__FieldVisitor`: `some (some i)` = `__Field::<field i>`, `some none` =
+`__Field::__ignore`, `none` = a `visit_*` the visitor does not implement -/
+def fieldIdx (schema : Schema) : Key → Option (Option Nat)
+  | .str s => some (findIdx schema (fun f => matchName f == s))
+  | .u16 n => some (findIdx schema (fun f => f.token == some n))
+  | .other => none
+
+/-- `next_key::<__Field>()?` -/
+def fieldOf {ε : Type} (schema : Schema) (k : Key) : Except (Err ε) (Option Nat) :=
+  match fieldIdx schema k with
+  | some r => .ok r
+  | none => .error .invalidType
 
 /-- lib.rs:462-478: `deserialize_u16` is requested for keys iff some (then: every) field has a
 `token` attribute, else `deserialize_identifier` -/
